@@ -59,6 +59,11 @@ class DataFrame(Entity, DataSet):
         dt_arr = [(n, dty) for n, dty in zip(self.column_names, self.dtype)]
         dt_arr.append((name, datatype))
         dt = np.dtype(dt_arr)
+        if isinstance(column, np.ndarray):
+            # NumPy casts an array to another type without looking at the
+            # values (300 becomes 44 in a uint8 column); Python scalars are
+            # converted with the range check every other write applies
+            column = column.tolist()
         column = np.array(column, dtype=datatype)
         new_da = []
         for i, rows in enumerate(self._h5group.group['data'][:]):
@@ -130,8 +135,7 @@ class DataFrame(Entity, DataSet):
         # the column type refuses leaves the table unchanged
         changed = stored.copy()
         for i, rows in enumerate(changed):
-            cell = column[i]
-            rows[name] = cell
+            rows[name] = self._python_scalar(column[i])
         try:
             for i, rows in enumerate(changed):
                 self.write_rows(rows=[rows], index=[i])
@@ -237,13 +241,13 @@ class DataFrame(Entity, DataSet):
                                  "need row and column index")
             row_idx, col_idx = position
             targeted_row = self.read_rows(row_idx)
-            targeted_row[col_idx] = cell
+            targeted_row[col_idx] = self._python_scalar(cell)
             self._write_data(targeted_row, slc=row_idx)
         else:
             if col_name is None or row_idx is None:
                 raise ValueError("Column and rows identifier must be given")
             targeted_row = self.read_rows(row_idx)
-            targeted_row[col_name] = cell
+            targeted_row[col_name] = self._python_scalar(cell)
             self._write_data(targeted_row, slc=row_idx)
 
     def read_cell(self, position=None, col_name=None, row_idx=None):
@@ -300,6 +304,17 @@ class DataFrame(Entity, DataSet):
             ridx = row_sl
         for i, row in enumerate(self._read_data(slc=row_sl)[list(column)]):
             print(row_form.format("  [{}]:".format(ridx[i]), *row))
+
+    @staticmethod
+    def _python_scalar(cell):
+        """
+        A NumPy scalar assigned to a field of a row is cast without a range
+        check (np.int64(300) becomes 44 in a uint8 column, -1 becomes 255);
+        the Python scalar it stands for is refused like in every other write.
+        """
+        if isinstance(cell, np.generic):
+            return cell.item()
+        return cell
 
     def _find_idx_by_name(self, name):
         for i, col_name in enumerate(self.column_names):
